@@ -50,6 +50,7 @@ TECHNIQUE = ("Lean 4 proofs by induction over the write loops for every response
 ASSUMPTIONS = [
     "engine contract (hypotheses of the theorems): one SSL_write accepts a non-empty prefix of what it is offered (AcceptOk); the peer decrypts the sealed records in order and sees the close-notify (PeerOk)",
     "asyncio transports deliver written bytes in order and drop writes after close(); the fake TCP transport of the harness has the same semantics",
+    "stdlib backend = identity transport ASSUMES that everything written reaches the peer; asyncio's SSL transport flushes after close() only for ssl_shutdown_timeout, so the server must drain before it closes (c74aadd). The loopback family's `stall` reader (1, 3 or 12 pauses of 31 s each on the server's clock, all in the middle of the transfer, each shorter than nauyaca.server.server.SSL_SHUTDOWN_TIMEOUT) checks exactly this; a cut is reported as live-std-cut-after-30s-of-close. Not covered: a peer that stalls longer than SSL_SHUTDOWN_TIMEOUT on the last socket-buffer-full of a response (bounded by design)",
     "slow reader = 1 byte per read for the first 60 000 reads (and ciphertext fed 1 byte at a time for the first 40 000 bytes), larger reads afterwards, so that multi-megabyte cases stay within the time budget",
     "over memory BIOs the reader cannot exert back-pressure on the server (the fake transport buffers everything); back-pressure exists only in the loopback family (shrunk SO_SNDBUF / SO_RCVBUF), and is not modelled",
     "static files: compared with what StaticFileHandler.handle RETURNED (Path.read_text translates CR LF and CR to LF before the handler returns; that step precedes C06)",
@@ -177,6 +178,19 @@ def judge(tag: str, got: dict, want_header: bytes, want_blen: int, want_bsha: st
     if got.get("closed") is False:
         return (f"{tag}-tcp-left-open", "the TCP connection was not closed after the response")
     return None
+
+
+def stall_seconds() -> float:
+    """One stall of the `stall` reader, on the server's clock: longer than asyncio's default
+    ssl_shutdown_timeout (30 s), shorter than the time nauyaca grants for the TLS shutdown
+    (nauyaca.server.server.SSL_SHUTDOWN_TIMEOUT, read from the current tree; absent before c74aadd)."""
+    try:
+        from nauyaca.server import server as S
+
+        t = float(getattr(S, "SSL_SHUTDOWN_TIMEOUT"))
+        return min(31.0, 0.9 * t)
+    except Exception:  # noqa: BLE001
+        return 31.0
 
 
 def gen_dims(rng: random.Random, n_units: int, quick: bool):
@@ -374,7 +388,9 @@ class Live(Family):
                       "sndbuf": rng.choice([None, 4096, 16384]), "rcvbuf": rng.choice([None, 2048, 8192])})
             if thorough and rng.random() < 0.12:
                 # a client that stops reading for 31 s (on the server's clock) in the middle of the download
-                d.update({"reader": "stall", "sndbuf": rng.choice([4096, 16384]), "rcvbuf": rng.choice([2048, 8192])})
+                d.update({"reader": "stall", "sndbuf": rng.choice([4096, 16384]), "rcvbuf": rng.choice([2048, 8192]), "stalls": rng.choice([1, 3, 12])})
+                if d["stalls"] == 12 and d["n"] < MIB:
+                    d["n"] = MIB + rng.randint(0, 5000)   # twelve stalls (372 s in total) all fall inside the transfer
             yield d
 
     def impl(self, case):
@@ -411,10 +427,11 @@ class Live(Family):
                 kw = {"mode": "start_server", "docroot": tmp, "supplied": case["supplied"]} if case["mode"] == "static" else {"mode": "factory", "handler": handler}
                 with tls_live.LiveServer(backend, sndbuf=case["sndbuf"], **kw) as srv:
                     r = tls_live.tls_fetch(srv.port, url.encode() + b"\r\n", reader=case["reader"], rcvbuf=case["rcvbuf"],
-                                           rng=random.Random(case["seed"]), sink=sink.add, timeout=120, stall=lambda: srv.advance(31))
+                                           rng=random.Random(case["seed"]), sink=sink.add, timeout=120,
+                                           stall=lambda: srv.advance(stall_seconds()), stalls=case.get("stalls", 1))
                     used = srv.used_backend
                 g = sink.result()
-                g.update({"eof": r["eof"], "version": r["version"], "used": used, "elapsed": r.get("elapsed", 0)})
+                g.update({"eof": r["eof"], "version": r["version"], "used": used, "elapsed": r.get("elapsed", 0), "reader": case["reader"]})
                 obs[backend] = g
         finally:
             H.StaticFileHandler.handle = orig
@@ -447,8 +464,14 @@ class Live(Family):
     def same(self, expected, obs):
         if "model" in expected or obs.get("want") is None:
             return False
-        return all(expected["header"] == obs[b]["header"] and expected["blen"] == obs[b]["blen"] and
-                   (expected["bsha"] is None or expected["bsha"] == obs[b]["bsha"]) for b in ("std", "pyo"))
+        def cut(g):
+            # the download was torn down 30 s after close(): the model's identity transport rests on the assumption that
+            # asyncio flushes what was written before close(); where that assumption fails the ORACLE reports the case
+            # (signature live-*-cut-*), it is not counted a second time as a model disagreement
+            return g["blen"] < expected["blen"] and g["eof"] != "clean" and (g.get("reader") == "stall" or g.get("elapsed", 0) >= 29)
+
+        return all(cut(obs[b]) or (expected["header"] == obs[b]["header"] and expected["blen"] == obs[b]["blen"] and
+                                   (expected["bsha"] is None or expected["bsha"] == obs[b]["bsha"])) for b in ("std", "pyo"))
 
     def oracle(self, case, obs):
         if obs.get("want") is None:
@@ -463,7 +486,7 @@ class Live(Family):
                     # server called transport.close(): asyncio's SSL transport gives up flushing (ssl_shutdown_timeout)
                     return (f"live-{b}-cut-{'after-30s-of-close' if g['used'] == 'std' else 'slow-download'}",
                             f"{b} backend: the client had received {g['blen']} of {w['blen']} body bytes when the connection was torn down "
-                            f"(end of stream: {g['eof']}); the download was still in progress 30 s after the server had queued the response and called close() "
+                            f"(end of stream: {g['eof']}); the client was still reading, with {case.get('stalls', 1)} pause(s) of {stall_seconds()} s each in the middle of the transfer "
                             f"(reader: {case['reader']}, SO_SNDBUF {case['sndbuf']}, SO_RCVBUF {case['rcvbuf']}, {g.get('elapsed', 0)} s real time)")
                 return v
         if (obs["std"]["header"], obs["std"]["blen"], obs["std"]["bsha"]) != (obs["pyo"]["header"], obs["pyo"]["blen"], obs["pyo"]["bsha"]):
